@@ -113,8 +113,9 @@ def dollar_env_cases(rng, mach, first_id, quick):
             c['timeout'] = timeout
         cases.append(c)
 
-    # fixed: the former model/implementation mismatch and its relatives (C16_expand_value_rescanned), the looping and the
-    # crashing inputs (C16_expand_self_reference_loops)
+    # fixed: the former model/implementation mismatch and its relatives (C16_expand_value_rescanned), the looping inputs
+    # (C16_expand_self_reference_loops) and the formerly crashing ones (a colon directly behind `${` / `$[`: repaired,
+    # C16_colon_at_start_is_default - ordinary correspondence cases now, the model says what they expand to)
     add({'X': '$[pika.os_threads]'}, ['${X}', '--pika:threads=3'], {'threads': {'cmdopt': '3'}})
     add({'X': 'a$[pika.os_threads]'}, ['${X}', '--pika:threads=3'], {'threads': {'cmdopt': '3'}})
     add({'X': '', 'Y': '${Z}', 'Z': '${W}', 'W': 'w'}, ['${X}${Y}', '--pika:threads=2'], {'threads': {'cmdopt': '2'}})
@@ -128,8 +129,14 @@ def dollar_env_cases(rng, mach, first_id, quick):
     add({'C16A': 'x${C16A}'}, ['${C16A}', '--pika:threads=2'], fam='dollar_loop', timeout=6)
     add({'PIKA_TRACE_DEPTH': 'x${PIKA_TRACE_DEPTH}'}, ['--pika:threads=2'], fam='dollar_loop', timeout=6)
     add({'C16A': 'p${C16B}', 'C16B': 'q${C16A}'}, ['${C16B}', '--pika:threads=2'], fam='dollar_loop', timeout=6)
-    add({}, ['${:x}', '--pika:threads=2'], fam='dollar_crash')
-    add({'C16A': ':'}, ['$[${C16A}k]', '--pika:threads=2'], fam='dollar_crash')
+    add({}, ['${:x}', '--pika:threads=2'], {'threads': {'cmdopt': '2'}}, fam='dollar_colon')
+    add({'C16A': ':'}, ['$[${C16A}k]', '--pika:threads=2'], {'threads': {'cmdopt': '2'}}, fam='dollar_colon')
+    add({}, ['$[:x]', 'p${:}q', '--pika:threads=2'], {'threads': {'cmdopt': '2'}}, fam='dollar_colon')
+    add({}, ['a${:b:c}d', 'p$[:]q', '--pika:threads=2'], {'threads': {'cmdopt': '2'}}, fam='dollar_colon')
+    add({'C16V': 'val', 'C16A': ':'}, ['$[:${C16V}]', '${${C16A}d}', '--pika:threads=2'], {'threads': {'cmdopt': '2'}}, fam='dollar_colon')
+    add({'C16V': 'val'}, ['${\\:x}', '${C16U\\:x:y}', '${::}', '--pika:threads=2'], {'threads': {'cmdopt': '2'}}, fam='dollar_colon')
+    add({'PIKA_THREADS': '${:3}'}, [], {'threads': {'env': '3'}}, fam='dollar_colon')
+    add({'PIKA_THREADS': '${:3}'}, ['--pika:threads=2'], {'threads': {'env': '3', 'cmdopt': '2'}}, fam='dollar_colon')
     # settings whose environment variable holds a reference to another variable, against the other sources
     indirect = {'threads': ['2', '3', '4'], 'scheduler': ['static', 'local', 'local-priority-lifo', 'static-priority'],
                 'small': ['0x18000', '0x20000', '98304'], 'busy': ['1500', '2500', '777'], 'qmax': ['900', '1100']}
@@ -160,7 +167,7 @@ def dollar_env_cases(rng, mach, first_id, quick):
         args = [''.join(rng.choice(DOLLAR_PIECES) for _ in range(rng.randint(1, 4))) for _ in range(rng.randint(1, 2))]
         args = [a for a in args if not a.startswith('-')] or ['${C16A}']
         add(env, args + ['--pika:threads=2'], {'threads': {'cmdopt': '2'}},
-            fam='dollar_crash' if any('${:' in x or '$[:' in x for x in list(env.values()) + args) else 'dollar_env')
+            fam='dollar_colon' if any('${:' in x or '$[:' in x for x in list(env.values()) + args) else 'dollar_env')
     return cases
 
 
@@ -700,9 +707,14 @@ def monitor(case, o, mach, refs=None):
         return [('C16:expand:self_reference_hang', 'start-up does not end (killed after %s s): an environment variable refers to itself '
                  'behind the first character of its value, the ini layer scans the substituted text again and again'
                  % case.get('timeout', 40))]
-    if rejected and o.get('cls') == 'expand_crash' and any('${:' in x or '$[:' in x or ':' in x for x in list(case['env'].values()) + case['args']):
-        return [('C16:expand:colon_out_of_range', 'the process is terminated by std::out_of_range from basic_string::replace: a colon '
-                 'directly behind `${` / `$[` makes find_next(":") compute position -1')]
+    if rejected and o.get('cls') == 'expand_crash':
+        # no input may end start-up with an uncaught std::out_of_range (was finding C16:expand:colon_out_of_range until the
+        # repair of find_next; now every occurrence is a violation)
+        if any(':' in x for x in list(case['env'].values()) + case['args']):
+            return [('C16:expand:colon_out_of_range', 'the process is terminated by std::out_of_range from basic_string::replace: a colon '
+                     'directly behind `${` / `$[` makes find_next(":") compute position -1')]
+        return [('C16:expand:out_of_range', 'the process is terminated by std::out_of_range from basic_string::replace during the '
+                 'expansion of a `${..}` / `$[..]` placeholder')]
     if rejected:
         return hits      # other rejections are judged by the correspondence (model says which are legitimate)
     L = o['lines']
@@ -927,7 +939,7 @@ def run(ctx):
         kws = kw_cases(random.Random(ctx.seed * 104729 + 1601), machs, len(cases), ctx.tier == 'quick')
         cases.extend(kws)
         n += len(kws)
-        # environment values that contain `$` (substituted text is scanned again; looping and crashing inputs)
+        # environment values that contain `$` (substituted text is scanned again; looping inputs; colon behind `${` / `$[`)
         dls = dollar_env_cases(random.Random(ctx.seed * 15485863 + 1611), machs['real'], len(cases), ctx.tier == 'quick')
         cases.extend(dls)
         n += len(dls)
@@ -1001,7 +1013,7 @@ def run(ctx):
                     cl = value_class(n, v)
                     if cl:
                         r.count('special=%s:%s:%s' % (n, cl, 'deciding' if s_ == top_ else 'below'))
-        predicted = mmap.get(str(c['id']), '').endswith(('rejected expand_loop', 'rejected expand_crash'))
+        predicted = mmap.get(str(c['id']), '').endswith('rejected expand_loop')
         if (o.get('cls') in ('hang',) and not predicted) or (o['kind'] == 'rejected' and o['cls'].startswith('other:')):
             r.hits.append(Hit('corr', 'C16:unexpected_termination', 'case %d: process ended with %s rc=%s'
                               % (c['id'], o.get('cls'), o['rc']), {'harness': 'c16_cfg', 'case': c}))
